@@ -20,6 +20,7 @@ class SyncWorld(World):
         self.uuids, self.props = list(uuids), list(props)
         self.server = ModelServer(self)
         self.dbs = [self.new_taskdb() for _ in range(nrep)]
+        ctx.panic_witness = self.witness
         self.nval = 0
         self.nts = 0
         self.ts_range = ts_range
@@ -98,6 +99,9 @@ class SyncWorld(World):
                     opts.append(('delete', u, None, tm))
             else:
                 opts.append(('create', u, None, None))
+        kinds = getattr(self, 'op_kinds', None)
+        if kinds:
+            opts = [x for x in opts if x[0] in kinds] or opts
         forced = getattr(self, 'force_op', None)
         if forced is not None:
             self.force_op = None
